@@ -64,6 +64,16 @@ type SampledHeader struct {
 	Header       []byte // Header bytes
 }
 
+// RawHeader represents a raw packet header record as it is reported: the
+// record's own fields and, next to them, the layers of the sampled header
+type RawHeader struct {
+	Protocol       uint32 // (enum SFLHeader_protocol)
+	FrameLength    uint32 // Original length of packet before sampling
+	Stripped       uint32 // Header/trailer bytes stripped by sender
+	HeaderLength   uint32 // Length of sampled header bytes
+	*packet.Packet        // L2, L3, L4; nil if the header can not be dissected
+}
+
 // ExtSwitchData represents Extended Switch Data
 type ExtSwitchData struct {
 	SrcVlan     uint32 // The 802.1Q VLAN id of incoming frame
@@ -240,11 +250,7 @@ func decodeFlowSample(r io.ReadSeeker) (*FlowSample, error) {
 			if err != nil {
 				return fs, err
 			}
-			// nil: the sampled header can not be dissected, the
-			// record has been consumed and is left out
-			if d != nil {
-				fs.Records["RawHeader"] = d
-			}
+			fs.Records["RawHeader"] = d
 		case SFDataExtSwitch:
 			d, err := decodeExtSwitchData(r)
 			if err != nil {
@@ -275,7 +281,7 @@ func decodeFlowSample(r io.ReadSeeker) (*FlowSample, error) {
 	return fs, nil
 }
 
-func decodeSampledHeader(r io.Reader) (*packet.Packet, error) {
+func decodeSampledHeader(r io.Reader) (*RawHeader, error) {
 	var (
 		h   = new(SampledHeader)
 		err error
@@ -287,14 +293,21 @@ func decodeSampledHeader(r io.Reader) (*packet.Packet, error) {
 
 	// the record has been read completely (header fields, header bytes
 	// and padding): a header that can not be dissected (truncated, not
-	// IP, unknown transport protocol ...) must not fail the datagram
-	p := packet.NewPacket()
-	d, err := p.Decoder(h.Header, h.Protocol)
-	if err != nil {
-		return nil, nil
+	// IP, unknown transport protocol ...) must not fail the datagram:
+	// the record is reported with its own fields only
+	rh := &RawHeader{
+		Protocol:     h.Protocol,
+		FrameLength:  h.FrameLength,
+		Stripped:     h.Stripped,
+		HeaderLength: h.HeaderLength,
 	}
 
-	return d, nil
+	p := packet.NewPacket()
+	if d, err := p.Decoder(h.Header, h.Protocol); err == nil {
+		rh.Packet = d
+	}
+
+	return rh, nil
 }
 
 func decodeExtSwitchData(r io.Reader) (*ExtSwitchData, error) {
